@@ -41,6 +41,9 @@ type chain struct {
 	twinState map[string]twinStateRes
 	twinLUs   map[string]luRes
 	twinQ     map[string]twinQRes
+	// legacy history keys of the twin by block (storetie.go), valid for a chain of histKeysAt blocks
+	histKeys   map[uint64][][]byte
+	histKeysAt int
 }
 
 type cellRes struct {
@@ -1153,6 +1156,7 @@ func (w *world) observe() {
 	twin := w.ch.g.Src
 	twinDB := w.ch.g.SrcDB
 	var items []obsItem
+	var seenBlocks []int
 	hi := w.height + 1
 	// Observation window: every block for short chains; for longer ones the blocks around every floor that
 	// moved or may move (previous / current durable floor, allowed floor), plus genesis, head and head+1.
@@ -1179,6 +1183,7 @@ func (w *world) observe() {
 		var b *lib.Bundle
 		if n <= w.height {
 			b = w.ch.g.Bundles[n]
+			seenBlocks = append(seenBlocks, n)
 		}
 		c := ctxOf(b, uint64(n))
 		c.Head = uint64(w.height)
@@ -1281,6 +1286,7 @@ func (w *world) observe() {
 	// --- persisted aggregated bloom windows: which exist on disk, model vs implementation vs property
 	w.bloomWindows()
 	w.floorsTie()
+	w.storeTie(seenBlocks)
 	w.heldObs()
 
 	// --- property oracle on the real answers
